@@ -169,6 +169,12 @@ func addParens(r *rand.Rand, e Expr) Expr {
 		for r.Intn(4) == 0 {
 			x = Paren{x}
 		}
+		if r.Intn(400) == 0 {
+			// any number of redundant parentheses (C06 draws the line at 10^4 levels of nesting)
+			for k, n := 0, 200+r.Intn(1200); k < n; k++ {
+				x = Paren{x}
+			}
+		}
 		return x
 	}
 	switch x := e.(type) {
